@@ -23,6 +23,10 @@ TRUSTED = [
     'exact arithmetic (rounding not modelled): exact domain sized so every intermediate has < 2^45 significant bits; tolerance domain measured at 1e-9',
     'np.interp / np.pad / scipy cumulative_trapezoid semantics are modelled (interp_grid0, app/repeat, cumtrapz) and exercised by the correspondence',
     'Q-run vs R-theorems: same polymorphic definitions instantiated at Q and R',
+    'source-text tie: translator/py2coq_c19.py (Python ast -> coq/gen/Gen_c19.v by symbolic execution, fail closed, re-run on every check) + the C19_*_is_source theorems for '
+    'trim_to_length, calc_surface_energy, calc_cum_abs_surface_energy, get_time_shift_motions, put_array_in_2d_array, join_values_w_shifts: trusted there are only the '
+    'translator\'s fixed readings of the NumPy / SciPy primitives (coq/lib/NpSurf.v: slice normalisation, slice store, broadcasting, np.pad, np.arange, np.interp on the sample '
+    'grid, int() as truncation) and of the arguments (asig.npts = len(asig.values); reductions both scalars or both arrays)',
     'Python harness',
 ]
 
@@ -211,9 +215,21 @@ def low_amplitude_cases(rep, rng, tier, cases, scales):
                            nontrivial=any(v != 0 for v in cfg['vals']), klass=site + '/low-amplitude/' + ('exact' if exact else 'tol')))
 
 
+def regen_c19():
+    """re-translate eqsig/surface.py and eqsig/fns/time_shift.py -> coq/gen/Gen_c19.v (fail closed: the message is handed to rep.prove)"""
+    import os, sys
+    sys.path.insert(0, os.path.join(core.VERIF, 'translator'))
+    try:
+        import py2coq_c19
+        py2coq_c19.regenerate(repo=core.REPO)
+    except Exception as e:
+        return 'py2coq_c19: %s: %s' % (type(e).__name__, e)
+    return None
+
+
 def run(rep, rng, tier):
     from eqsig.fns import time_shift as ts
-    rep.prove('Prop_C19')
+    rep.prove('Prop_C19', gen_failed=regen_c19())
     _PURITY_SEEN.clear()
     cases, scales, rows, puts, joins = [], [], [], [], []
     n_exact, n_tol, n_rel, n_put = (300, 45, 75, 160) if tier == "quick" else (4500, 600, 1200, 2500)
